@@ -76,7 +76,7 @@ func evalDefer(deferObjs []object.DeferObj, env *object.Env) *object.PanErr {
 	for _, o := range deferObjs {
 		ret := Eval(o.Node, env)
 		if err, ok := ret.(*object.PanErr); ok {
-			return err
+			return appendStackTrace(err, o.Node.Source())
 		}
 	}
 
